@@ -212,6 +212,17 @@ func TestVerif_C11(t *testing.T) {
 			cam.Firmware = longString(rng, rng.PickInt(100, 255), false)
 		}
 		cfg, mode := c11RandomConfig(rng, cam)
+		throttled := idx%8 == 7
+		if throttled {
+			// throttling active: files are cut and resumed in mid-event; every resumed file is still
+			// a full recording (background first, threshold at trigger) - checked structurally
+			mode = 3
+			cam = leptonCamera("lepton3", 16, 12, 9)
+			cfg.Motion = simpleMotion(1, 1)
+			cfg.MinSecs, cfg.PreviewSecs, cfg.MaxSecs = 1, 1, 250
+			cfg.Constant = false
+			cfg.Throttle, cfg.BucketSize, cfg.MinRefill = true, "3s", "500ms"
+		}
 		eff := cfg.effectiveMotion(cam.Model)
 		if cam.Model == "boson" && eff.EdgePixels < 1 {
 			cfg.Motion.Set["edge-pixels"], cfg.Motion.EdgePixels = true, 1
@@ -223,6 +234,10 @@ func TestVerif_C11(t *testing.T) {
 			nf = rng.Range(25, 40)
 		}
 		o := streamOpts{Frames: nf, Clears: rng.PickInt(0, 0, 1, 2), MotionPct: rng.PickInt(20, 60, 100), Content: content}
+		if throttled {
+			o = streamOpts{Frames: 700, MotionPct: 500, Content: 0}
+			nf = 700
+		}
 		frames := genStream(rng, cam, eff.EdgePixels, o)
 		if mode == 1 && content == 0 {
 			// defaults: temp-thresh 2900/28000, delta 50/200, warmer-only, gap 45, count 3: make the
@@ -243,7 +258,11 @@ func TestVerif_C11(t *testing.T) {
 				return
 			}
 			defer r.cleanup()
-			r.serve(feedStream(cam, hdr, frames, cw), nil)
+			if throttled {
+				r.serve(pacedFeed(cam, frames, 2*time.Millisecond), nil)
+			} else {
+				r.serve(feedStream(cam, hdr, frames, cw), nil)
+			}
 			if r.Err != io.EOF || r.WriteErr != nil {
 				c.Violation("connection-ended-abnormally", "", fmt.Sprintf("handleConn returned %v (write error %v)", r.Err, r.WriteErr))
 				return
@@ -324,7 +343,14 @@ func TestVerif_C11(t *testing.T) {
 					return
 				}
 			}
-			if !dynamic {
+			if throttled {
+				if len(mfiles) < 2 {
+					c.Inconclusive(fmt.Sprintf("throttled connection produced only %d finished files (no cut-and-resume observed)", len(mfiles)))
+				} else {
+					c.Count("throttle_resumed_files_checked", int64(len(mfiles)-1))
+				}
+			}
+			if !dynamic && !throttled {
 				exp, motion := expectRecordings(cfg, cam, frames)
 				var done []expRecording
 				for _, e := range exp {
